@@ -745,15 +745,15 @@ func (am AnchorMatrix) sanitizeOffsets() error {
 }
 
 func (am AnchorMatrix) Anchor(index, class int) Anchor {
-	if len(am.records) < index {
+	if len(am.records) <= index {
 		return nil
 	}
 	offsets := am.records[index].offsets
-	if len(offsets) < class {
+	if len(offsets) <= class {
 		return nil
 	}
 	offset := offsets[class]
-	if offset == 0 {
+	if offset == 0 || len(am.data) < int(offset) {
 		return nil
 	}
 	anchor, _, _ := ParseAnchor(am.data[offset:]) // offset is sanitized
